@@ -28,6 +28,10 @@ pub struct Case {
     pause_resume: bool,
     #[serde(default)]
     sort: bool,
+    /// messages 10 s apart (lifecycle confirmed after 7 messages: the rest arrives at the server loop while
+    /// parsing runs); otherwise 1 ms apart (everything is held back by the lifecycle detection until the end)
+    #[serde(default)]
+    slow_clock: bool,
 }
 
 const F_APIDS: [&[u8; 4]; 4] = [b"ECU1", b"ECU2", b"AB\0\0", b"ABC\0"];
@@ -51,8 +55,9 @@ fn gen_log(c: &Case) -> (Vec<FMsg>, Vec<DltMessage>) {
         .map(|(i, f)| {
             let mut m = f.build(i as u32);
             m.payload_text = None;
-            m.reception_time_us = BASE + i as u64 * 1000;
-            m.timestamp_dms = i as u32 * 10;
+            let sp: u64 = if c.slow_clock { 10_000_000 } else { 1000 };
+            m.reception_time_us = BASE + i as u64 * sp;
+            m.timestamp_dms = (i as u64 * sp / 100) as u32;
             m.lifecycle = 0;
             m
         })
@@ -132,7 +137,7 @@ fn check_inner(c: &Case, rep: &mut Rep) -> Result<(), String> {
     let filters_active = c.filters.iter().any(|f| f.enabled && f.kind != 2);
     let schedule = match c.throttle % 4 {
         1 => Some((0..40).map(|_| "25:8").collect::<Vec<_>>().join(",")),
-        2 => Some((0..12).map(|_| "100:40").collect::<Vec<_>>().join(",")),
+        2 => Some("7:50,2:40,3:40,5:40,10:40,20:40,40:40,80:40,160:40,320:40".to_string()),
         3 => Some("1:150,7:60,50:60,200:100".to_string()),
         _ => None,
     };
@@ -154,6 +159,7 @@ fn check_inner(c: &Case, rep: &mut Rep) -> Result<(), String> {
     let js: Vec<String> = c.filters.iter().map(to_json).collect();
     let mut window_changes = 0;
     let mut pages_total = 0;
+    let mut arrival_cycles = 0;
 
     let result = (|| -> Result<(), String> {
         let r = s.cmd(&format!(r#"open {{"files":["{}"],"sort":{}}}"#, path.display(), c.sort))?;
@@ -263,6 +269,7 @@ fn check_inner(c: &Case, rep: &mut Rep) -> Result<(), String> {
         // make sure everything is parsed before the rest
         ensure!(s.c.wait_for(Duration::from_secs(15), &|log| log.iter().any(|f| matches!(f, Frame::FileInfo(n) if *n as usize >= total))), "file never reported as parsed");
         ensure!(s.parsed_all(total), "harness");
+        arrival_cycles = s.c.log.iter().filter(|f| matches!(f, Frame::FileInfo(_))).count();
         if !c.is_query {
             // stream keeps following: after parsing finished the initial window must be complete as well
             verify(&mut s, id, w0, "initial window after parsing finished", true)?;
@@ -315,7 +322,7 @@ fn check_inner(c: &Case, rep: &mut Rep) -> Result<(), String> {
             for (by_time, sel) in &c.lookups {
                 let stream_positions: Vec<usize> = if filters_active { refpos.clone() } else { (0..total).collect() };
                 if *by_time {
-                    let t_ms = BASE / 1000 + (*sel as u64 % (total as u64 + 5));
+                    let t_ms = BASE / 1000 + (*sel as u64 % (total as u64 + 5)) * if c.slow_clock { 10_000 } else { 1 };
                     let r = s.cmd(&format!("stream_binary_search {} time_ms={}", id, t_ms))?;
                     let exp = stream_positions.iter().position(|p| msgs[*p].reception_time_us >= t_ms * 1000).unwrap_or(stream_positions.len());
                     ensure!(r.starts_with("ok:") && r.contains(&format!("\"filtered_msg_index\":{}}}", exp)), "time lookup {} ms: {} but the first stream message not before it is at position {}", t_ms, r, exp);
@@ -386,6 +393,7 @@ fn check_inner(c: &Case, rep: &mut Rep) -> Result<(), String> {
     rep.label_if(schedule.is_some() && !c.wait_parsed, "stream_created_while_parsing");
     rep.label_if(!filters_active, "no_active_filters");
     rep.label_if(c.sort, "sorted_session");
+    rep.label_if(arrival_cycles >= 3, "ge3_arrival_cycles");
     rep.label_if(w0.0 >= refpos.len(), "window_beyond_end");
     rep.nontrivial = (ratio > 0.1 && ratio < 0.9 && w0.0 < refpos.len() && (w0.0 > 0 || w0.1 < refpos.len())) || pages_total >= 2 || window_changes >= 1;
     Ok(())
@@ -426,11 +434,11 @@ pub fn def_sub(tier: Tier) -> Box<dyn DynSub> {
         prop::collection::vec((any::<u16>(), any::<u16>()), 0..3),
         prop::option::weighted(0.6, (prop::collection::vec(simple.prop_map(|mut f| { f.kind = 0; f.enabled = true; f }), 0..2), any::<u16>(), 1u8..12)),
         prop::collection::vec((any::<bool>(), any::<u16>()), 0..3),
-        (0u8..4, any::<bool>(), prop::bool::weighted(0.2), prop::bool::weighted(0.2)),
+        (0u8..4, any::<bool>(), prop::bool::weighted(0.2), prop::bool::weighted(0.2), prop::bool::weighted(0.6)),
     )
-        .prop_map(|((spec, repeat), filters, (is_query, binary, win), changes, search, lookups, (throttle, wait_parsed, pause_resume, sort))| Case { spec, repeat, filters, is_query, binary, win, changes, search, lookups, throttle, wait_parsed, pause_resume, sort });
+        .prop_map(|((spec, repeat), filters, (is_query, binary, win), changes, search, lookups, (throttle, wait_parsed, pause_resume, sort, slow_clock))| Case { spec, repeat, filters, is_query, binary, win, changes, search, lookups, throttle, wait_parsed, pause_resume, sort, slow_clock });
     sub("remote_streams", tier.pick(220, 6_000), case, check)
-        .rates(&[("query", 0.15), ("window_change", 0.3), ("ge2_search_pages", 0.15), ("stream_created_while_parsing", 0.15), ("no_active_filters", 0.1), ("text_mode", 0.1)])
+        .rates(&[("query", 0.15), ("window_change", 0.3), ("ge2_search_pages", 0.15), ("stream_created_while_parsing", 0.15), ("no_active_filters", 0.1), ("text_mode", 0.1), ("ge3_arrival_cycles", 0.1)])
         .shrink_iters(40)
         .slow()
         .boxed()
